@@ -54,6 +54,13 @@ impl<'a, T: ColumnProvider> ExpressionExecutionEngine<'a, T> {
                     (Value::String(value), Value::Timestamp(_)) => {
                         left_value = ValueType::Timestamp.parse(&value).ok_or(EvaluationError::FailedToParseTimestamp)?;
                     }
+                    // Numbers compare by value, not by type
+                    (Value::Int(value), Value::Float(_)) => {
+                        left_value = Value::Float(Float(*value as f64));
+                    }
+                    (Value::Float(_), Value::Int(value)) => {
+                        right_value = Value::Float(Float(*value as f64));
+                    }
                     _ => {}
                 }
 
@@ -175,14 +182,18 @@ impl<'a, T: ColumnProvider> ExpressionExecutionEngine<'a, T> {
             ExpressionTree::In { is_not, operand, values } => {
                 let executed_operand = self.evaluate(operand)?;
 
+                // x IN (a, b) is x = a OR x = b, x NOT IN (a, b) is x != a AND x != b: a comparison with NULL is false
+                let mut any_null = executed_operand.is_null();
                 for value in values {
                     let expected_value = self.evaluate(value)?;
-                    if executed_operand == expected_value {
+                    if expected_value.is_null() {
+                        any_null = true;
+                    } else if !executed_operand.is_null() && executed_operand == expected_value {
                         return Ok(Value::Bool(!is_not));
                     }
                 }
 
-                Ok(Value::Bool(*is_not))
+                Ok(Value::Bool(*is_not && !any_null))
             }
             ExpressionTree::FunctionCall { function, arguments } => {
                 let mut executed_arguments = Vec::new();
